@@ -245,7 +245,7 @@ def selections(cand, maxlen):
 
 def main(ctx):
     # every lattice part once more under FP traps + warnings-as-errors (clean on the unchanged tree, see DESIGN section 0)
-    ctx.envstrict_all = True
+    ctx.envstrict_all = "small"
     from esutil import numpy_util as nu
 
     cseed = int(ctx.seed)
@@ -398,7 +398,13 @@ def main(ctx):
     # arrays holding two fields whose names differ only in case ('x' / 'X'): each is its own field
     FX, FXU, FS = ("x", ">f8", ()), ("X", "<i4", ()), ("s", "S3", ())
     case_units = [(fl, sh) for fl in ((FX, FXU), (FXU, FX), (FX, FS, FXU), (FXU, FS, FX), (FS, FXU, FX)) for sh in MAIN_SHAPES]
-    ctx.lattice("select", base_units(F7, KQ, ctx.pick(2, 4)) + swapped_units + case_units, one_select, expand=expand_select,
+    # field names that contain characters a "convenience" parser of name lists would trip over: a comma, a blank, a
+    # colon, a bracket, non-ASCII, a leading digit - next to the parts such a name would be split into ('g', 'r')
+    ODD = [("g,r", ">f8", ()), ("a b", "<i4", ()), ("x:y", "S3", ()), ("v[0]", "<i2", (2,)), ("é", "<f4", ()), ("1st", "i1", ())]
+    PARTS = [("g", "<i2", ()), ("r", ">i4", ())]
+    odd_units = [((o, PARTS[0]), sh) for o in ODD for sh in MAIN_SHAPES[:2]] + [((PARTS[1], ODD[0], PARTS[0]), MAIN_SHAPES[0]), ((ODD[0], ODD[1]), MAIN_SHAPES[0]),
+                                                                                ((ODD[2], ODD[4], ODD[5]), MAIN_SHAPES[0])]
+    ctx.lattice("select", base_units(F7, KQ, ctx.pick(2, 4)) + swapped_units + case_units + odd_units, one_select, expand=expand_select,
                 bounds=dict(alphabet=F7, max_fields=KQ, swapped_alphabet=FSWAP, max_fields_swapped=KSW,
                             max_names=NSEL, shapes=MAIN_SHAPES,
                             small_shapes=SMALL_SHAPES, missing=[MISSING, "<first name upper-cased>", "<longest name>+z", "<last name>_err"],
